@@ -138,6 +138,7 @@ theorem stage_is_expected (nq : Nat) (op : Op) (h : oneColumn op = true) :
     refine ⟨marks ++ [], [], true, writes g bits false, ?_, ?_, by simpa using hmatch⟩
     · simp only [opItems]; exact items_simple g bits [] marks h.1 hm hne hnn
     · cases g <;> simp [simple] at h <;> simp [opStages, gateStages]
+      intro hb; rw [h.1] at hb; simp [blockOk] at hb
   | measure q c b =>
     refine ⟨_, _, _, measStage nq q c (basisLabel b), rfl, rfl, ?_⟩
     rw [basisLabel_eq]
@@ -270,6 +271,140 @@ theorem simple_stage_items (g : Gate) (bits : List Nat) (hs : simple g = true) (
     List.append_nil, and_true]
   exact hmatch
 
+/-! ### Multi-qubit block gates -/
+
+theorem ghostWrites_syms (d : String) : ∀ (n b : Nat), ∀ p ∈ ghostWrites d b n, accepts (.block d) p.2 = true
+  | 0, _ => by intro p hp; cases hp
+  | n + 1, b => by
+    intro p hp
+    simp only [ghostWrites, List.mem_cons] at hp
+    rcases hp with rfl | hp
+    · simp [accepts]
+    · exact ghostWrites_syms d n (b + 1) p hp
+
+theorem drawWrites_syms (f l : Nat) (d : String) (q : Option Int) :
+    ∀ p ∈ drawWrites f l d q, accepts (.block d) p.2 = true := by
+  intro p hp
+  unfold drawWrites at hp
+  split at hp
+  · simp only [List.mem_singleton] at hp; subst hp; simp [accepts]
+  · simp only [List.mem_cons] at hp
+    rcases hp with rfl | hp
+    · simp [accepts]
+    · exact ghostWrites_syms d _ _ p hp
+
+theorem restWrites_syms (d : String) : ∀ (rs : List (Nat × Nat)) (prev : Nat),
+    ∀ p ∈ restWrites d rs prev, accepts (.block d) p.2 = true
+  | [], _ => by intro p hp; cases hp
+  | (f, l) :: more, prev => by
+    intro p hp
+    simp only [restWrites, List.mem_append] at hp
+    rcases hp with hp | hp
+    · exact drawWrites_syms f l d _ p hp
+    · exact restWrites_syms d more l p hp
+
+/-- Every symbol of a block gate's drawing is a part of the box with its label. -/
+theorem blockWrites_syms (d : String) (bits : List Nat) : ∀ p ∈ blockWrites d bits, accepts (.block d) p.2 = true := by
+  intro p hp
+  unfold blockWrites at hp
+  split at hp
+  · simp only [List.mem_append] at hp
+    rcases hp with hp | hp
+    · exact drawWrites_syms _ _ d _ p hp
+    · exact restWrites_syms d _ _ p hp
+  · cases hp
+
+theorem ghostWrites_mem (d : String) : ∀ (n b j : Nat), j < n → (b + j, Sym.ghost d) ∈ ghostWrites d b n
+  | 0, _, _, h => by omega
+  | n + 1, b, 0, _ => by simp [ghostWrites]
+  | n + 1, b, j + 1, h => by
+    have := ghostWrites_mem d n (b + 1) j (by omega)
+    simp only [ghostWrites, List.mem_cons]
+    right
+    have e : b + 1 + j = b + (j + 1) := by omega
+    rw [e] at this; exact this
+
+theorem ghostWrites_no_multi (d : String) : ∀ (n b : Nat) (r k : Nat) (d' : String) (q : Option Int),
+    (r, Sym.multigate k d' q) ∉ ghostWrites d b n
+  | 0, _, _, _, _, _ => by simp [ghostWrites]
+  | n + 1, b, r, k, d', q => by
+    simp only [ghostWrites, List.mem_cons, Prod.mk.injEq, reduceCtorEq, and_false, false_or]
+    exact ghostWrites_no_multi d n (b + 1) r k d' q
+
+theorem drawWrites_extent (f l : Nat) (d : String) (q : Option Int) (r k : Nat) (d' : String) (q' : Option Int)
+    (h : (r, Sym.multigate k d' q') ∈ drawWrites f l d q) :
+    d' = d ∧ ∀ j, j < k → (r + 1 + j, Sym.ghost d) ∈ drawWrites f l d q := by
+  unfold drawWrites at h ⊢
+  split at h
+  · simp at h
+  · rename_i hne
+    rw [if_neg hne]
+    simp only [List.mem_cons, Prod.mk.injEq, Sym.multigate.injEq] at h
+    rcases h with ⟨rfl, rfl, rfl, rfl⟩ | h
+    · exact ⟨rfl, fun j hj => List.mem_cons_of_mem _ (ghostWrites_mem _ _ _ j hj)⟩
+    · exact absurd h (ghostWrites_no_multi _ _ _ _ _ _ _)
+
+theorem restWrites_extent (d : String) : ∀ (rs : List (Nat × Nat)) (prev : Nat) (r k : Nat) (d' : String)
+    (q' : Option Int), (r, Sym.multigate k d' q') ∈ restWrites d rs prev →
+    d' = d ∧ ∀ j, j < k → (r + 1 + j, Sym.ghost d) ∈ restWrites d rs prev
+  | [], _, _, _, _, _, h => by simp [restWrites] at h
+  | (f, l) :: more, prev, r, k, d', q', h => by
+    simp only [restWrites, List.mem_append] at h ⊢
+    rcases h with h | h
+    · obtain ⟨e, hj⟩ := drawWrites_extent f l d _ r k d' q' h
+      exact ⟨e, fun j hjk => Or.inl (hj j hjk)⟩
+    · obtain ⟨e, hj⟩ := restWrites_extent d more l r k d' q' h
+      exact ⟨e, fun j hjk => Or.inr (hj j hjk)⟩
+
+/-- In the drawing of a block gate every `\\multigate{k}` sits on `k` ghosts with its label (the reader's
+`extentOk` for multigates). -/
+theorem blockWrites_extent (d : String) (bits : List Nat) (r k : Nat) (d' : String) (q' : Option Int)
+    (h : (r, Sym.multigate k d' q') ∈ blockWrites d bits) :
+    d' = d ∧ ∀ j, j < k → (r + 1 + j, Sym.ghost d) ∈ blockWrites d bits := by
+  unfold blockWrites at h ⊢
+  split at h
+  · rename_i f l more hg
+    simp only [List.mem_append] at h ⊢
+    rcases h with h | h
+    · obtain ⟨e, hj⟩ := drawWrites_extent f l d _ r k d' q' h
+      exact ⟨e, fun j hjk => Or.inl (hj j hjk)⟩
+    · obtain ⟨e, hj⟩ := restWrites_extent d more l r k d' q' h
+      exact ⟨e, fun j hjk => Or.inr (hj j hjk)⟩
+  · cases h
+
+/-- A multi-qubit block gate at a covered placement: one visible stage, an acceptable drawing of the
+reader's marks (one part of the box on every operand). -/
+theorem block_stage_items {d : String} {n : Nat} {bits : List Nat} (hok : blockOk d n bits = true) :
+    StagesMatch (visible [blockWrites d bits]) (itemStages (items (.box d n) bits [])) := by
+  obtain ⟨_, _, _, hcov, hsub⟩ := blockOk_facts hok
+  obtain ⟨_, _, _, _, hne, _, _⟩ := blockOk_latex hok (St.new 0 0)
+  obtain ⟨b, hb⟩ := List.exists_mem_of_ne_nil bits hne
+  obtain ⟨p0, hp0, _⟩ := hcov b hb
+  have hvis : allWire (blockWrites d bits) = false := by
+    rw [← Bool.not_eq_true]
+    intro hall
+    have := List.all_eq_true.mp hall p0 hp0
+    have hq : p0.2 = .qw := by simpa using this
+    have := blockWrites_syms d bits p0 hp0
+    rw [hq] at this; simp [accepts] at this
+  have hitems : items (.box d n) bits [] = [.stage (bits.map (fun b => (⟨b, .block d⟩ : Mark)) ++ []) [] true] := by
+    have hall : ((bits.map fun b => (⟨b, .block d⟩ : Mark)).all fun x => x.kind = .idle) = false := by
+      rw [← Bool.not_eq_true, List.all_eq_true]
+      intro hh
+      have := hh ⟨b, .block d⟩ (List.mem_map.mpr ⟨b, hb, rfl⟩)
+      simp at this
+    simp [items, single, hall]
+  rw [hitems]
+  simp only [visible, List.filter_cons, hvis, Bool.not_false, if_true, List.filter_nil, itemStages, StagesMatch,
+    List.append_nil, and_true]
+  constructor
+  · intro p hp
+    exact ⟨⟨p.1, .block d⟩, List.mem_map.mpr ⟨p.1, hsub p hp, rfl⟩, rfl, blockWrites_syms d bits p hp⟩
+  · intro m hm
+    obtain ⟨x, hx, rfl⟩ := List.mem_map.mp hm
+    obtain ⟨p, hp, h1⟩ := hcov x hx
+    exact ⟨p, hp, h1, blockWrites_syms d bits p hp⟩
+
 mutual
 /-- **The reference stages of a gate of the proved class are what the independent reader expects**:
 the visible stages (explicit identity wires dropped) match the reader's stage items one by one, in
@@ -277,8 +412,12 @@ order — for well-formed operand lists (`gateMalformed = false`, the reader's o
 theorem gateStages_items : ∀ (g : Gate) (bits : List Nat), topOk g bits = true → gateMalformed g bits = false →
     StagesMatch (visible (gateStages g bits false)) (itemStages (items g bits []))
   | .box l n, bits, ht, _ => by
-    simp only [topOk, Bool.and_eq_true, decide_eq_true_eq] at ht
-    simpa [gateStages] using simple_stage_items _ bits ht.1.1 ht.1.2
+    simp only [topOk, Bool.or_eq_true, Bool.and_eq_true, decide_eq_true_eq] at ht
+    rcases ht with ht | ht
+    · have hn : n = 1 := by simpa [simple] using ht.1.1
+      have hb : blockOk l n bits = false := by subst hn; simp [blockOk]
+      simpa [gateStages, hb] using simple_stage_items _ bits ht.1.1 ht.1.2
+    · simpa [gateStages, ht] using block_stage_items ht
   | .x, bits, ht, _ => by
     simp only [topOk] at ht
     simpa [gateStages] using simple_stage_items .x bits rfl ht
